@@ -50,6 +50,11 @@ pub struct Phase {
     pub faults: Vec<(u8, Decision)>,
     pub ending: Ending,
     pub timer: bool,
+    /// Some(cut): the process died while a further (never acknowledged) write was being appended to
+    /// the WAL - its entry is on disk up to byte `cut` (0, 1, inside the header, header | payload,
+    /// len-1, any), possibly as the first bytes of a freshly rotated segment
+    #[serde(default)]
+    pub torn_append: Option<u16>,
 }
 
 #[derive(Clone, Debug, Serialize, Deserialize)]
@@ -165,6 +170,53 @@ async fn drive_phase(core: &Arc<SimCore>, handles: &[tokio::task::JoinHandle<()>
         quiesce().await;
     }
     (end == DriveEnd::Done, c)
+}
+
+/// The dead process was in the middle of appending one more (unacknowledged) write to its WAL.
+async fn torn_append(world: &World, cut: u16) -> bool {
+    use arrow_array::{Int64Array, RecordBatch, StringArray};
+    use arrow_schema::{DataType, Field, Schema};
+    if !world.wal_dir.exists() {
+        return false;
+    }
+    let wal = match cardinalsin::ingester::WriteAheadLog::open(world.config().wal).await {
+        Ok(w) => w,
+        Err(_) => return false,
+    };
+    let mut wal = wal;
+    let before = crate::props::c05::seg_files(&world.wal_dir);
+    let b = RecordBatch::try_new(
+        Arc::new(Schema::new(vec![Field::new("timestamp", DataType::Int64, false), Field::new("metric_name", DataType::Utf8, false), Field::new("rid", DataType::Int64, false)])),
+        vec![Arc::new(Int64Array::from(vec![1_700_000_000_000_000_000i64])), Arc::new(StringArray::from(vec!["never-acknowledged"])), Arc::new(Int64Array::from(vec![-1i64]))],
+    )
+    .unwrap();
+    if wal.append(&b).await.is_err() {
+        return false;
+    }
+    let after = crate::props::c05::seg_files(&world.wal_dir);
+    drop(wal);
+    for (n, sz) in &after {
+        let pre = before.get(n).cloned().unwrap_or(0);
+        if *sz > pre {
+            let len = (*sz - pre) as usize;
+            let c = match cut % 8 {
+                0 => 0,
+                1 => 1,
+                2 => 21,
+                3 => 22,
+                4 => 23,
+                5 => len - 1,
+                _ => (cut as usize >> 3) % len,
+            }
+            .min(len - 1);
+            if let Ok(f) = std::fs::OpenOptions::new().write(true).open(world.wal_dir.join(n)) {
+                let _ = f.set_len(pre + c as u64);
+                let _ = f.sync_all();
+            }
+            return true;
+        }
+    }
+    false
 }
 
 /// start a process: new Ingester + ensure_wal (schedulable, can be hit by faults)
@@ -391,6 +443,11 @@ pub fn exec(case: &Case) -> Outcome {
                         any_crash_with_unflushed = true;
                     }
                     drop(p);
+                    if let Some(cut) = phase.torn_append {
+                        if torn_append(&world, cut).await {
+                            out.class("died-during-a-wal-append");
+                        }
+                    }
                 }
                 Ending::Graceful => {
                     let mut p = proc.take().unwrap();
@@ -600,8 +657,9 @@ fn phase() -> impl Strategy<Value = Phase> {
         prop::collection::vec((0u8..40, decision()), 0..3),
         prop_oneof![3 => Just(Ending::Kill), 2 => Just(Ending::Graceful), 2 => Just(Ending::Continue)],
         prop::bool::weighted(0.4),
+        prop::option::weighted(0.3, any::<u16>()),
     )
-        .prop_map(|(writers, schedule, faults, ending, timer)| Phase { writers, schedule, faults, ending, timer })
+        .prop_map(|(writers, schedule, faults, ending, timer, torn_append)| Phase { writers, schedule, faults, ending, timer, torn_append })
 }
 
 fn strategy(t: Tier) -> BoxedStrategy<Case> {
@@ -612,7 +670,7 @@ pub fn def() -> PropDef {
     PropDef {
         id: "C01",
         level: "exploration",
-        rule: "1-3 (thorough 4) phases; each phase = restart (Ingester::new + ensure_wal, itself schedulable and hit by faults), 1-3 concurrent writers x 1-3 batches of 1-5 rows (schema alternation included), optional flush timer, generated schedule over every chunk upload / catalog request / catalog call and the four pause points (after WAL append, after register, after truncate, after persist), 0-2 faults {error before effect, error after effect, crash before, crash after} at generated steps, ending in {kill at quiescence, graceful shutdown flush, continue}; WAL sync every write; flush_row_count 1-6; catalog = object-store client on the simulator or in-memory client behind a gate. Final step of every case: faults off, restart if down, forced successful flush, then acked rows must be a subset of rows in registered+present chunks. Non-trivial = >=1 acked write and (a crash with unflushed data, an injected request failure, or >=2 restarts).",
+        rule: "1-3 (thorough 4) phases; each phase = restart (Ingester::new + ensure_wal, itself schedulable and hit by faults), 1-3 concurrent writers x 1-3 batches of 1-5 rows (schema alternation included), optional flush timer, generated schedule over every chunk upload / catalog request / catalog call and the four pause points (after WAL append, after register, after truncate, after persist), 0-2 faults {error before effect, error after effect, crash before, crash after} at generated steps, ending in {kill at quiescence, graceful shutdown flush, continue}; a killed / crashed process may have died while appending one more, never acknowledged write to its WAL (entry on disk up to a generated byte, possibly as the first bytes of a freshly rotated segment); WAL sync every write; flush_row_count 1-6; catalog = object-store client on the simulator or in-memory client behind a gate. Final step of every case: faults off, restart if down, forced successful flush, then acked rows must be a subset of rows in registered+present chunks. Non-trivial = >=1 acked write and (a crash with unflushed data, an injected request failure, or >=2 restarts).",
         assumptions: &[
             "a crash stops all tasks of the process at a request boundary or pause point; WAL files contain what was written (torn WAL tails are C05)",
             "duplicates after recovery are permitted; rows of writes that returned Err are unconstrained",
